@@ -85,3 +85,65 @@ Proof.
   - destruct (va_bit_lossless o H) as (v & A & B & _). eauto.
 Qed.
 Print Assumptions C01_cells.
+
+(* ---- the premises are satisfiable: a concrete table (one table-metadata entry; two columns sharing
+   a metadata name with a default; two slices, the first column plain, the second bit-packed with an
+   IsInvalid-style property) satisfies wf_file, so the file-level theorems of C01, C03, C06, C08, C13
+   say something. *)
+Definition ex_int (v : Z) : obj := {| oty := SBDF_INTTYPEID; oelems := [[v; 0; 0; 0]] |}.
+Definition ex_ent (name : list Z) (v : Z) (d : option Z) : mdent :=
+  {| ename := name; evalue := Some (ex_int v); edflt := option_map ex_int d |}.
+Definition ex_meta : tm :=
+  {| tmeta := {| ments := [ex_ent [116] 7 None]; mmod := false |};
+     tcols := [ {| ments := [ex_ent [97] 1 (Some 9); ex_ent [98] 2 None]; mmod := false |};
+                {| ments := [ex_ent [98] 3 None; ex_ent [97] 4 (Some 9)]; mmod := false |} ] |}.
+Definition ex_plain (vals : list Z) : va :=
+  {| vty := SBDF_INTTYPEID; venc := SBDF_PLAINARRAYENCODINGTYPEID; value1 := 0;
+     o1 := Some {| oty := SBDF_INTTYPEID; oelems := map (fun v => [v; 0; 0; 0]) vals |}; o2 := None |}.
+Definition ex_bits (n : Z) (bytes : list Z) : va :=
+  {| vty := SBDF_BOOLTYPEID; venc := SBDF_BITARRAYENCODINGTYPEID; value1 := n;
+     o1 := Some {| oty := SBDF_BINARYTYPEID; oelems := [bytes] |}; o2 := None |}.
+Definition ex_slice (a b c : Z) (bits : Z) : list (cs va) :=
+  [ {| csvals := ex_plain [a; b; c]; csprops := [([73], ex_bits 3 [bits])]; csowned := false |};
+    {| csvals := ex_bits 3 [bits]; csprops := []; csowned := false |} ].
+Definition ex_slices : list (list (cs va)) := [ex_slice 1 2 3 160; ex_slice 4 5 6 64].
+
+Example C01_nonvacuous : exists names, wf_file ex_meta ex_slices names /\ zlen names = 2 /\
+  (forall swp, zlen (enc_file swp ex_meta ex_slices names) = 189).
+Proof.
+  destruct (fold_columns (tcols ex_meta)) as [names|e] eqn:F; [|vm_compute in F; discriminate].
+  assert (Hn : names = [ex_ent [97] 1 (Some 9); ex_ent [98] 2 None]) by (vm_compute in F; now inversion F).
+  exists names. split; [|split; [subst; reflexivity|intros [|]; subst; vm_compute; reflexivity]].
+  assert (Wobj : forall v, wf_obj (ex_int v)).
+  { intros v. unfold wf_obj, ex_int, ocount. cbn [oty oelems]. split; [cbn; lia|]. change (is_arr SBDF_INTTYPEID) with false. cbv iota.
+    split; [vm_compute; reflexivity|]. intros e [<-|[]]. reflexivity. }
+  assert (W1 : forall v, obj1_ok (ex_int v)) by (intros v; split; [apply Wobj|reflexivity]).
+  assert (Went : forall nm v d, zlen nm < 2147483647 -> tentry_ok (ex_ent nm v d)).
+  { intros nm v d Hl. split; [exact Hl|]. cbn [evalue ex_ent]. split; [apply W1|]. split; [unfold ex_int; cbn [oty]; unfold SBDF_INTTYPEID; lia|].
+    destruct d as [d|]; cbn [edflt ex_ent option_map]; [split; [apply W1|reflexivity]|exact I]. }
+  assert (Wva_p : forall vals, zlen vals < 1000 -> wf_va (ex_plain vals)).
+  { intros vals Hl. apply wf_plain; [reflexivity|]. unfold wf_obj, ocount. cbn [oty oelems]. rewrite BaseFacts.zlen_map. split; [lia|].
+    change (is_arr SBDF_INTTYPEID) with false. cbv iota. split; [vm_compute; reflexivity|].
+    intros e He. apply in_map_iff in He. destruct He as (v & <- & _). reflexivity. }
+  assert (Wva_b : forall b, wf_va (ex_bits 3 [b])) by (intros b; apply wf_bit; [lia|reflexivity]).
+  assert (Wcol : forall a va da b vb db, a <> b -> zlen a < 100 -> zlen b < 100 ->
+            cstr a = a -> cstr b = b -> col_ok {| ments := [ex_ent a va da; ex_ent b vb db]; mmod := false |}).
+  { intros a va da b vb db Hab La Lb Ca Cb. split; cbn [ments].
+    - constructor; [apply Went; lia|]. constructor; [apply Went; lia|constructor].
+    - unfold key. cbn [map ename ex_ent]. rewrite Ca, Cb. constructor; [intros [E|[]]; congruence|]. constructor; [intros []|constructor]. }
+  constructor.
+  - split; [constructor; [apply Went; cbn; lia|constructor]|]. split; [cbn; lia|]. split; [|cbn; lia].
+    constructor; [apply Wcol; [discriminate|cbn; lia|cbn; lia|reflexivity|reflexivity]|].
+    constructor; [apply Wcol; [discriminate|cbn; lia|cbn; lia|reflexivity|reflexivity]|constructor].
+  - unfold cols_dflt_wf. apply Forall_forall. intros e He d Hd. cbn in He.
+    assert (Hwf : EqFacts.obj_wf (ex_int 9)) by (right; split; [vm_compute; reflexivity|intros x [<-|[]]; reflexivity]).
+    destruct He as [<-|[<-|[<-|[<-|[]]]]]; cbn in Hd; try discriminate; inversion Hd; subst; exact Hwf.
+  - exact F.
+  - subst. cbn. lia.
+  - intros cols Hc. assert (E : exists a b c bits, cols = ex_slice a b c bits) by (destruct Hc as [<-|[<-|[]]]; do 4 eexists; reflexivity).
+    destruct E as (a & b & c & bits & ->). split; [|reflexivity]. split; [cbn; lia|].
+    intros col [<-|[<-|[]]].
+    + split; [apply Wva_p; cbn; lia|]. split; [unfold byte_ok; cbn; unfold SBDF_INTTYPEID, SBDF_BOOLTYPEID; lia|]. split; [cbn; lia|].
+      intros p [<-|[]]. split; [cbn; lia|]. split; [apply Wva_b|unfold byte_ok; cbn; unfold SBDF_BOOLTYPEID; lia].
+    + split; [apply Wva_b|]. split; [unfold byte_ok; cbn; unfold SBDF_INTTYPEID, SBDF_BOOLTYPEID; lia|]. split; [cbn; lia|intros p []].
+Qed.
